@@ -259,6 +259,45 @@ func (e *Exec) schedStuck(st *State) {
 	e.addInput(st, "__schedule", "string", e.ConcStr(sc.traceString()))
 	in := e.InputsUnder(st, e.pathModel(st))
 	in["__finding"] = "every unfinished thread waits for a lock held by another one"
+	st.mayFail = true
 	e.Res.Violations = append(e.Res.Violations, Violation{Msg: sc.stuckMsg, Inputs: in, PathTag: "sched-stuck"})
 	e.endPath(st, "deadlock")
+}
+
+// schedYield models verifYield(): an explicit point at which the scheduler may hand over (one preemption).
+func (e *Exec) schedYield(st *State) Outcome {
+	sc := st.sched
+	if sc == nil {
+		return val(nil)
+	}
+	th := &sc.threads[sc.cur]
+	var others []int
+	for t := range sc.threads {
+		if t != sc.cur && !sc.threads[t].done && !sc.threads[t].blocked {
+			others = append(others, t)
+		}
+	}
+	if th.resumed || sc.preempts == 0 || len(others) == 0 || st.panicking != nil {
+		th.resumed = false
+		sc.trace = append(sc.trace, sc.cur)
+		return val(nil)
+	}
+	alts := []AltOut{{Cond: e.C.True, Do: func(s *State) bool {
+		c := s.sched
+		c.trace = append(c.trace, c.cur)
+		return true
+	}}}
+	for _, t := range others {
+		t := t
+		alts = append(alts, AltOut{Cond: e.C.True, Tag: fmt.Sprintf("sched:%d->%d", sc.cur, t), Do: func(s *State) bool {
+			c := s.sched
+			me := &c.threads[c.cur]
+			me.frames = s.frames
+			me.resumed = true
+			c.preempts--
+			schedSwitchTo(s, t)
+			return false
+		}})
+	}
+	return Outcome{Kind: OutAlts, Exhaustive: true, Alts: alts}
 }
